@@ -27,7 +27,7 @@ type fractalHeap struct {
 	offBytes    int // bytes used for heap offsets
 	lenBytes    int // bytes used for object lengths in managed IDs
 	nManaged    uint64
-	nObjects    uint64 // managed + huge + tiny
+	nObjects    uint64    // managed + huge + tiny
 	blocks      []fhBlock // direct blocks sorted by heap offset
 	// payloadRelative is set when the managed-object offsets of this heap were
 	// found to count from the end of the direct block header instead of
@@ -107,6 +107,9 @@ func (d *decoder) fractalHeapAt(addr uint64, owner string) *fractalHeap {
 		h.maxDirect < h.startSize || h.maxHeapBits == 0 || h.maxHeapBits > 64 {
 		d.finding("frhp-parameters", addr, "table width %d, starting block size %d, max direct size %d, max heap size %d bits", h.width, h.startSize, h.maxDirect, h.maxHeapBits)
 		return h
+	}
+	if h.maxHeapBits < 64 && h.maxDirect > uint64(1)<<uint(h.maxHeapBits) {
+		d.finding("frhp-parameters", addr, "maximum direct block size %d exceeds the heap's %d-bit address space", h.maxDirect, h.maxHeapBits)
 	}
 	h.offBytes = (h.maxHeapBits + 7) / 8
 	h.lenBytes = min(limitEncSize(h.maxDirect), limitEncSize(h.maxManaged))
@@ -545,9 +548,25 @@ func (d *decoder) readDenseLinks(li *linkInfo, owner string) []Link {
 		if !ok {
 			continue
 		}
-		l, ok := d.parseLink(obj, li.heap)
-		if !ok {
-			continue
+		var l Link
+		specOK := d.trial(func() bool {
+			var ok bool
+			l, ok = d.parseLink(obj, li.heap)
+			return ok && Lookup3([]byte(l.Name), 0) == hash
+		})
+		if !specOK {
+			// The record's name hash lets us recognise a non-standard encoding
+			// seen in the wild: {version, link type, flags, character set,
+			// 1-byte name length, name, value}.
+			if al, ok := altDenseLink(obj, d); ok && Lookup3([]byte(al.Name), 0) == hash {
+				d.finding("link-message-layout", li.heap, "dense link %q is encoded as {version, type, flags, charset, length, name, address}; the specification's link message is {version, flags, [type], [creation order], [charset], length, name, value}", al.Name)
+				out = append(out, al)
+				continue
+			}
+			var ok bool
+			if l, ok = d.parseLink(obj, li.heap); !ok {
+				continue
+			}
 		}
 		if got := Lookup3([]byte(l.Name), 0); got != hash {
 			d.finding("btree-v2-hash", li.nameBT, "record for link %q stores hash %#08x, lookup3 of the name is %#08x", l.Name, hash, got)
@@ -558,6 +577,21 @@ func (d *decoder) readDenseLinks(li *linkInfo, owner string) []Link {
 		d.finding("frhp-object-count", li.heap, "heap header counts %d objects, name index has %d records", h.nObjects, len(t.records))
 	}
 	return out
+}
+
+// altDenseLink decodes the non-standard hard-link encoding described in readDenseLinks.
+func altDenseLink(b []byte, d *decoder) (Link, bool) {
+	c := &cur{b: b}
+	ver, typ := c.u8(), c.u8()
+	c.u8() // flags
+	c.u8() // character set
+	n := int(c.u8())
+	name := c.bytes(n)
+	a, def := d.addr(c)
+	if c.bad || ver != 1 || typ != 0 || !def || n == 0 {
+		return Link{}, false
+	}
+	return Link{Name: string(name), Kind: "hard", Addr: a}, true
 }
 
 // readDenseAttrs reads densely stored attributes via the name index (B-tree type 8).
